@@ -320,13 +320,15 @@ class Adapter:
         if o is not None:
             return o
         E = self.ent(e)
-        form = self.rng.randrange(3)
+        form = self.rng.randrange(4)
         if form == 0:
             o = E[self.pk(e, k)]
         elif form == 1:
             o = E.get(id=k)
-        else:
+        elif form == 2:
             o = select(x for x in E if x.id == k).first()
+        else:
+            o = E.get_for_update(id=k) if self.rng.randrange(2) else select(x for x in E if x.id == k).for_update().first()
         if o is None:
             raise Mismatch('read', '%s[%d] exists in the session according to the specification but lookup form %d returned None' % (e, k, form))
         return self.reg(e, k, o)
@@ -601,7 +603,16 @@ class Adapter:
             b.as_ = items
 
     def do_Delete(self, ev):
-        o = self.obj(ev['e'], ev['k'])
+        e, k = ev['e'], ev['k']
+        form = self.rng.randrange(4)
+        if form == 0 and (e, k) in self.w.registry:
+            # delete through a query (not bulk: the objects are loaded and deleted one by one)
+            E = self.ent(e)
+            n = select(x for x in E if x.id == k).delete()
+            if n != 1:
+                raise Mismatch('delete', 'select(x for x in %s if x.id == %d).delete() reports %r deleted objects' % (e, k, n))
+            return
+        o = self.obj(e, k)
         o.delete()
 
     def do_BulkDelete(self, ev):
